@@ -296,7 +296,7 @@ func (a *atomizer) helperPaths(cond ssa.Value) ([]helperPath, bool) {
 		a.pv.binds = a.pv.binds[:len(a.pv.binds)-1]
 		a.helperDepth--
 	}()
-	inner := &atomizer{c: a.c, pv: a.pv, fn: a.fn, helperDepth: a.helperDepth}
+	inner := &atomizer{c: a.c, pv: a.pv, fn: a.fn, helperDepth: a.helperDepth, normEmpty: a.normEmpty}
 	var out []helperPath
 	type retCase struct {
 		to   *ssa.BasicBlock
@@ -527,6 +527,12 @@ func ruleGuardUpdate(c *Ctx, r *Rep) {
 		"flag(" + S + "&2)": "expired", "flag(" + S + "&1)": "missing", "flag(" + S + "&8)": "changed",
 	}
 	seen := map[string]bool{}
+	// Every way from the entry to a `return true` is walked (boolean variables, short-circuit values and case
+	// expressions resolved along the way). The reason a path belongs to is the last strategy-flag test it passed on
+	// the true side; what it tested after that is one conjunct of the reason's condition. Per reason the conjuncts of
+	// all paths are compared with the table.
+	got := map[string][][]literal{}
+	gotPos := map[string]string{}
 	for _, ret := range returnsOf(fn) {
 		k, ok := retResults(ret)[0].(*ssa.Const)
 		if !ok {
@@ -536,38 +542,53 @@ func ruleGuardUpdate(c *Ctx, r *Rep) {
 		if !constBool(k) {
 			continue
 		}
-		// nearest dominating flag test with positive polarity
-		var flagIf *ssa.If
-		var flagAtom string
-		for _, g := range guardsOf(ret.Block()) {
-			s, pos := a.atom(g.Cond)
-			if (strings.HasPrefix(s, "flag(") || strings.HasPrefix(s, "anyflag(")) && pos == g.Truth {
-				flagIf, flagAtom = g.If, s
-				break
+		paths, okP := a.pathsDNF(fn.Blocks[0], ret.Block(), 50000)
+		if !okP {
+			r.Undecided("shape:reason|"+c.Pos(ret.Pos()), c.Pos(ret.Pos()), "too many paths")
+			continue
+		}
+		for _, p := range paths {
+			// infeasible: an atom with both signs
+			sign := map[string]bool{}
+			feasible := true
+			for _, l := range p {
+				if was, dup := sign[l.atom]; dup && was != l.pos {
+					feasible = false
+				}
+				sign[l.atom] = l.pos
 			}
+			if !feasible {
+				continue
+			}
+			last := -1
+			for i, l := range p {
+				if l.pos && (strings.HasPrefix(l.atom, "flag(") || strings.HasPrefix(l.atom, "anyflag(")) {
+					last = i
+				}
+			}
+			if last < 0 {
+				r.Bad("reason|"+fk, c.Pos(ret.Pos()), "every `return true` is under a strategy flag test", "a path without one")
+				continue
+			}
+			flagAtom := p[last].atom
+			if _, known := table[flagAtom]; !known {
+				r.Bad("reason|"+flagAtom, c.Pos(ret.Pos()), "a reason of the decision table", "unknown flag test "+flagAtom)
+				continue
+			}
+			conj := append([]literal{}, p[last+1:]...)
+			got[flagAtom] = append(got[flagAtom], conj)
+			gotPos[flagAtom] = c.Pos(ret.Pos())
 		}
-		if flagIf == nil {
-			r.Bad("reason|"+fk, c.Pos(ret.Pos()), "every `return true` is under a strategy flag test", "no dominating flag test")
-			continue
-		}
-		want, known := table[flagAtom]
-		if !known {
-			r.Bad("reason|"+flagAtom, c.Pos(ret.Pos()), "a reason of the decision table", "unknown flag test "+flagAtom)
-			continue
-		}
-		name := names[flagAtom]
-		if seen[name] {
-			r.Bad("reason-once|"+name, c.Pos(ret.Pos()), "one `return true` per reason", "a second one")
-		}
+	}
+	var flagAtoms []string
+	for fa := range got {
+		flagAtoms = append(flagAtoms, fa)
+	}
+	sort.Strings(flagAtoms)
+	for _, fa := range flagAtoms {
+		name := names[fa]
 		seen[name] = true
-		// the flag test may be the first conjunct of a compound condition: start from its true successor
-		start := flagIf.Block().Succs[0]
-		got, ok2 := a.pathsDNF(start, ret.Block(), 64)
-		if !ok2 {
-			r.Undecided("shape:reason|"+name, c.Pos(ret.Pos()), "too many paths")
-			continue
-		}
-		r.Check(dnfEqual(got, want), "reason|"+name, c.Pos(ret.Pos()), dnfString(want), dnfString(got))
+		r.Check(dnfEqual(got[fa], table[fa]), "reason|"+name, gotPos[fa], dnfString(table[fa]), dnfString(got[fa]))
 	}
 	for _, n := range names {
 		if !seen[n] {
